@@ -706,6 +706,22 @@ static QString xmlAttr(const QString &s)
 
 static QTcpServer *g_server = nullptr;
 
+// capabilities node URIs: ordinary ones and adversarial ones ('#' inside / repeated / at the end, XML-special and non-ASCII characters,
+// nodes that are prefixes / extensions of each other, a bare '#'); `allowEmpty`: the empty node (nothing is advertised then)
+static QString genNode(Rng &rng, Gen &g, bool allowEmpty)
+{
+    static const char *pool[] = {
+        "http://example.org/products#demo", "urn:x#a#b", "https://example.org/c#", "#", "##", "https://example.org/n", "https://example.org/n2",
+        "https://example.org/n#", "https://example.org/a<b&c\"d'e>", "https://example.org/caf\xC3\xA9#\xF0\x9F\x98\x80", "https://github.com/qxmpp-project/qxmppx",
+        "https://github.com/qxmpp-project/qxmpp#fork", "urn:other", "u", " node with spaces ",
+    };
+    uint32_t r = rng.below(allowEmpty ? 22 : 21);
+    if (r < 15) return QString::fromUtf8(pool[r]);
+    if (r < 18) { bool amb = g.ambiguous; g.ambiguous = true; QString s = QL("urn:n:") + g.str(3) + (rng.coin() ? QL("#") + g.str(2) : QString()); g.ambiguous = amb; return s; }
+    if (r < 21) return QL("https://example.org/") + g.str(2);
+    return QString();
+}
+
 static void runClientCase(Rng &rng, Gen &g, long long n)
 {
     TestClient c;
@@ -744,7 +760,8 @@ static void runClientCase(Rng &rng, Gen &g, long long n)
     if (n >= 2 && rng.below(3)) disco->setClientType(g.token());
     if (n >= 2 && rng.below(3)) disco->setClientName(g.str(3));
     QString node = disco->clientCapabilitiesNode();
-    if (n >= 2 && rng.below(3) == 0) { node = QL("https://example.org/") + g.str(2).replace(QLatin1Char('<'), QLatin1Char('_')); disco->setClientCapabilitiesNode(node); }
+    if (n == 1) { node = QL("http://example.org/products#demo"); disco->setClientCapabilitiesNode(node); }
+    else if (n >= 2 && rng.below(2) == 0) { node = genNode(rng, g, false); disco->setClientCapabilitiesNode(node); }
     InfoSet formHolder;
     if (n >= 2 && rng.below(2)) {
         do { formHolder = g.info(0, 0, false); } while (!formHolder.hasForm);
@@ -833,11 +850,25 @@ static void runClientCase(Rng &rng, Gen &g, long long n)
             corr(capsOp(QString()), ver.toStdString() + "|" + p2.verificationString().toBase64().toStdString());
         }
     }
-    // foreign node: item-not-found
+    // the advertised node without "#ver": same info set, never an error
     {
-        QDomElement r3; QString other = QL("urn:other#") + ver; QString x3 = ask(other, r3);
-        bool err = !x3.isEmpty() && r3.attribute(QL("type")) == QL("error");
-        corr(capsOp(other), ver.toStdString() + "|" + (err ? "not-found" : "answered"));
+        QDomElement r2; QString x2 = ask(advNode, r2);
+        if (x2.isEmpty() || r2.attribute(QL("type")) != QL("result")) oracleFail("C20:no-result-for-advertised-node", "plain node " + advNode.toStdString() + " ; " + replay);
+        else {
+            Wire w2 = wireFromQuery(r2.firstChildElement(QL("query")));
+            if (w2 == w) oraclePass()++; else oracleFail("C20:plain-query-answers-differently", replay);
+            QXmppDiscoveryIq p2; p2.parse(r2);
+            corr(capsOp(advNode), ver.toStdString() + "|" + p2.verificationString().toBase64().toStdString());
+        }
+    }
+    // other nodes (foreign; an extension of the own node; a proper prefix of it): correspondence with the prefix rule only
+    for (const QString &other : { QL("urn:other#") + ver, advNode + QL("x#") + ver, advNode.left(advNode.size() - 1) + QL("#") + ver }) {
+        QDomElement r3; QString x3 = ask(other, r3);
+        if (x3.isEmpty()) continue;
+        bool err = r3.attribute(QL("type")) == QL("error");
+        std::string obs = "not-found";
+        if (!err) { QXmppDiscoveryIq p3; p3.parse(r3); obs = p3.verificationString().toBase64().toStdString(); stat("foreign_node_answered_by_prefix_rule"); }
+        corr(capsOp(other), ver.toStdString() + "|" + obs);
     }
     // ---- history on the same client: reconfigure in each of the ways, publish again (fresh presence / presence derived from
     //      clientPresence(), via setClientPresence / via connectToServer), and after EVERY emitted presence compare its ver with the
@@ -867,13 +898,13 @@ static void runClientCase(Rng &rng, Gen &g, long long n)
             if (!added.isEmpty()) { c.removeExtension(added.takeLast()); history += "; removeExtension"; }
             else { c.addNewExtension<QXmppUserTuneManager>(); history += "; addExtension(bundled)"; }
             break;
-        case 5: disco->setClientCapabilitiesNode(QL("https://example.org/n%1").arg(k)); history += "; setClientCapabilitiesNode"; break;
+        case 5: { QString nn = n < 2 ? (k % 2 ? QL("urn:x#a#b") : QL("https://example.org/c#")) : genNode(rng, g, true); disco->setClientCapabilitiesNode(nn); history += "; setClientCapabilitiesNode(" + nn.toStdString() + ")"; break; }
         case 6: if (!c.findExtension<QXmppVersionManager>()) { c.addNewExtension<QXmppVersionManager>(); history += "; addExtension(version)"; } else history += "; (no change)"; break;
         default: history += "; (no change)"; break;
         }
         corr("config " + hexOf(disco->clientCapabilitiesNode()) + " " + cfgTail(), "ok");
         // observation only (no presence published yet, so nothing is claimed): the old node#ver is answered with the new info set
-        if (way < 7) {
+        if (way < 7 && !lastQnode.isNull()) {
             QDomElement r4; QString x4 = ask(lastQnode, r4);
             if (!x4.isEmpty() && r4.attribute(QL("type")) == QL("result")) {
                 std::string x; Wire w4 = wireFromQuery(r4.firstChildElement(QL("query")));
@@ -903,6 +934,17 @@ static void runClientCase(Rng &rng, Gen &g, long long n)
         if (px.isEmpty()) { oracleFail("C20:no-presence-emitted", rp); return; }
         QDomElement ce;
         { auto pd = domOf(px); for (auto e = pd.firstChildElement(QL("c")); !e.isNull(); e = e.nextSiblingElement(QL("c"))) if (e.namespaceURI() == QL("http://jabber.org/protocol/caps")) ce = e; }
+        if (disco->clientCapabilitiesNode().isEmpty()) {
+            // empty capabilities node: QXmppPresence writes no <c/>, nothing is advertised; the plain query must still be answered
+            if (!ce.isNull()) oracleFail("C20:caps-element-attributes", rp + " " + px.toStdString()); else oraclePass()++;
+            corr(std::string("publish ") + (derived ? "derived" : "fresh"), "no-caps");
+            QDomElement r0; QString x0 = ask(QString(), r0);
+            if (x0.isEmpty() || r0.attribute(QL("type")) != QL("result")) oracleFail("C20:no-result-for-plain-query", rp);
+            else { oraclePass()++; QXmppDiscoveryIq p0; p0.parse(r0); corr("query -", p0.verificationString().toBase64().toStdString()); }
+            stat("empty_node_nothing_advertised");
+            lastQnode = QString();
+            continue;
+        }
         if (ce.isNull()) { oracleFail("C20:presence-without-caps", rp + " " + px.toStdString()); return; }
         QString v2 = ce.attribute(QL("ver")), n2 = ce.attribute(QL("node"));
         rp += " presence=" + px.toStdString();
@@ -912,6 +954,7 @@ static void runClientCase(Rng &rng, Gen &g, long long n)
         QDomElement r2; QString x2 = ask(q2, r2);
         rp += " reply=" + x2.toStdString();
         if (x2.isEmpty() || r2.attribute(QL("type")) != QL("result")) { oracleFail("C20:no-result-for-advertised-node", rp); return; }
+        if (r2.firstChildElement(QL("query")).attribute(QL("node")) != q2) oracleFail("C20:reply-node-differs", rp); else oraclePass()++;
         Wire w2 = wireFromQuery(r2.firstChildElement(QL("query")));
         std::string xep2;
         if (!xepVer(w2, Quirks(), xep2)) { oracleFail("C20:reply-outside-xep-domain", rp); return; }
@@ -922,7 +965,24 @@ static void runClientCase(Rng &rng, Gen &g, long long n)
           if (!dup.empty()) oracleFail("C20:reply-repeats-feature", "repeated: " + dup + " ; " + rp); else oraclePass()++; }
         QXmppDiscoveryIq p2; p2.parse(r2);
         corr("query " + hexOf(q2), p2.verificationString().toBase64().toStdString());
+        // the advertised node without "#ver" and no node at all: same info set, never an error
+        for (const QString &pq : { n2, QString() }) {
+            QDomElement r5; QString x5 = ask(pq, r5);
+            if (x5.isEmpty() || r5.attribute(QL("type")) != QL("result")) { oracleFail(pq.isNull() ? "C20:no-result-for-plain-query" : "C20:no-result-for-advertised-node", "plain node ; " + rp); continue; }
+            if (wireFromQuery(r5.firstChildElement(QL("query"))) == w2) oraclePass()++; else oracleFail("C20:plain-query-answers-differently", rp);
+            QXmppDiscoveryIq p5; p5.parse(r5);
+            corr("query " + hexOf(pq), p5.verificationString().toBase64().toStdString());
+        }
+        // an extension of the own node / a foreign node: correspondence with the prefix rule
+        for (const QString &other : { n2 + QL("x#") + v2, QL("urn:other#") + v2 }) {
+            QDomElement r6; QString x6 = ask(other, r6);
+            if (x6.isEmpty()) continue;
+            std::string obs = "not-found";
+            if (r6.attribute(QL("type")) != QL("error")) { QXmppDiscoveryIq p6; p6.parse(r6); obs = p6.verificationString().toBase64().toStdString(); stat("foreign_node_answered_by_prefix_rule"); }
+            corr("query " + hexOf(other), obs);
+        }
         stat("client_republications");
+        if (n2.contains(QLatin1Char('#'))) stat("client_republications_node_with_hash_sign");
         lastQnode = q2; lastXep = xep2;
     }
 }
